@@ -1,7 +1,7 @@
 (* C07 — Circuit file format: faithful round trip, documented acceptance, total parser. *)
 From Coq Require Import List NArith Arith.
 Import ListNotations.
-Require Tag Target.
+Require Tag Target TargetList.
 Require Import Dec HashModel.
 
 (* tags: escaping then reading returns the tag for EVERY byte string, with any text after the closing bracket ... *)
@@ -21,6 +21,12 @@ Proof. exact read_print_dec. Qed.
 Theorem C07_target_roundtrip :
   forall t rest, Target.twf t -> no_digit_head rest -> Target.read_target (Target.write_succinct t ++ rest) = Some (t, rest).
 Proof. exact Target.read_write_target. Qed.
+(* whole target lists: stim::write_targets (no space around combiners) then read_arbitrary_targets_into (read_until_next_line_arg +
+   read_single_gate_target) returns the list, for every list of well-formed targets, combiners in any position, any length *)
+Theorem C07_target_list_roundtrip :
+  forall ts rest, Forall Target.twf ts ->
+  TargetList.read_targets (S (length ts)) true (TargetList.write_targets ts ++ 10%N :: rest) = TargetList.ROk ts (10%N :: rest).
+Proof. exact TargetList.targets_roundtrip. Qed.
 Theorem C07_uint24_reader_accepts_all_below_limit :
   forall n rest, (n < Target.LIM)%N -> no_digit_head rest -> Target.read_u24 (print_dec n ++ rest) = Some (n, rest).
 Proof. exact Target.read_u24_print. Qed.
@@ -28,4 +34,4 @@ Proof. exact Target.read_u24_print. Qed.
 Theorem C07_gate_name_hash_is_perfect : hash_table_ok = true.
 Proof. exact table_hash_perfect. Qed.
 Print Assumptions C07_tag_roundtrip. Print Assumptions C07_tag_output_bounded. Print Assumptions C07_target_roundtrip.
-Print Assumptions C07_gate_name_hash_is_perfect.
+Print Assumptions C07_gate_name_hash_is_perfect. Print Assumptions C07_target_list_roundtrip.
